@@ -24,6 +24,31 @@ example : lexEscape (printEscape (.control 0x1C) ++ ['\\', 'c', '\\', '\\']) =
 example : lexEscape (printEscape (.unicode '😀') ++ ['A']) = some (.unicode '😀', ['A']) := by decide
 
 
+/-- ★ totality of the escape value mapping (`char::from_u32` in the `\\u` / `\\U` arms of `escape_unit`): every
+    value is either a Unicode scalar value or rejected, and the rejected ones are exactly the surrogates
+    U+D800…U+DFFF and the values above U+10FFFF. -/
+theorem escape_value_total (v : Nat) :
+    charFromU32 v = none ↔ (0xD800 ≤ v ∧ v ≤ 0xDFFF) ∨ 0x110000 ≤ v :=
+  charFromU32_none_iff v
+
+/-- ★ `\\UXXXXXXXX` for every 32-bit value: read as that scalar value, or a syntax error
+    (`UnicodeEscapeOutOfRange`) for surrogates and values above U+10FFFF — nothing else can happen. -/
+theorem long_unicode_escape_total (v : Nat) (hv : v < 4294967296) (rest : List Char) :
+    lexEscape ('\\' :: 'U' :: (upperHex8 v ++ rest)) =
+      if v < 0xD800 ∨ (0xDFFF < v ∧ v < 0x110000) then some (.unicode (Char.ofNat v), rest) else none :=
+  lexEscape_long_unicode v hv rest
+
+/-- ★ `\\uXXXX` for every 16-bit value: a scalar value or a syntax error for the surrogates. -/
+theorem short_unicode_escape_total (v : Nat) (hv : v < 65536) (rest : List Char) :
+    lexEscape ('\\' :: 'u' :: (lowerHex4 v ++ rest)) =
+      if v < 0xD800 ∨ 0xDFFF < v then some (.unicode (Char.ofNat v), rest) else none :=
+  lexEscape_short_unicode v hv rest
+
+example : lexEscape "\\U0000D800".toList = none := by decide
+example : lexEscape "\\Udfff".toList = none := by decide
+example : lexEscape "\\U0000D7FF'".toList = some (.unicode (Char.ofNat 0xD7FF), ['\'']) := by decide
+example : lexEscape "\\U00110000".toList = none := by decide
+
 /-- ★ Every word of the modelled fragment is self-delimiting.  `WordUnits.Ok .word d w (e :: rest)` says that
     `w` is a tree the word lexer can produce with `(e :: rest)` following it: unquoted literal characters
     (not a delimiter, not one of `\\ $ \`` and not a quote), backslash escapes (any character but newline),
